@@ -155,28 +155,29 @@ def _freeze_param(v):
 
 
 class ArgGuard:
-    """Read-only, snapshotted argument arrays: purity is checked after every operation."""
+    """Snapshotted argument arrays (read-only or writable): purity is checked after every operation."""
 
     def __init__(self):
         self.items = []
 
-    def add(self, arr):
+    def add(self, arr, readonly=True):
         arr = np.asarray(arr)
-        try:
-            arr.setflags(write=False)
-        except ValueError:
-            pass
-        self.items.append((arr, arr.tobytes(), arr.shape, arr.dtype, arr.strides))
+        if readonly:
+            try:
+                arr.setflags(write=False)
+            except ValueError:
+                pass
+        self.items.append((arr, arr.tobytes(), arr.shape, arr.dtype, bool(arr.flags.writeable)))
         return arr
 
-    def add_all(self, arrs):
-        return tuple(self.add(a) for a in arrs)
+    def add_all(self, arrs, readonly=True):
+        return tuple(self.add(a, readonly) for a in arrs)
 
     def changed(self):
         bad = []
-        for i, (a, raw, shape, dtype, strides) in enumerate(self.items):
+        for i, (a, raw, shape, dtype, writeable) in enumerate(self.items):
             if a.shape != shape or a.dtype != dtype or a.tobytes() != raw:
                 bad.append(i)
-            elif a.flags.writeable:
-                bad.append(i)  # somebody flipped the flag back
+            elif bool(a.flags.writeable) != writeable:
+                bad.append(i)  # somebody flipped the flag
         return bad
